@@ -116,7 +116,10 @@ def look_struct(fi):
         return 'shape', 'lookAt takes two poses'
     a, b = fi.params[0], fi.params[1]
     n_ret = 0
-    for pth in paths_of(fi.node, fi.params):
+    from ..engine import peval as _pe
+    mod_funcs = {n_.name: n_ for n_ in fi.module.tree.body if isinstance(n_, ast.FunctionDef)}
+    flat = _pe.flatten_function(mod_funcs, fi.node, depth=2, impure=True)        # private module-level helpers inlined
+    for pth in paths_of(flat, fi.params):
         if pth.kind != 'return' or pth.ret_src is None:
             return 'bad', 'a path through lookAt returns nothing'
         n_ret += 1
@@ -223,14 +226,38 @@ def look_struct(fi):
 
 # ---------------------------------------------------------------------------------------------------------------------
 # numericalJacobian: every difference quotient is central and divided by twice the step
-def central_differences(fi):
-    """-> (quotients found, [(lineno, problem)]) for the finite-difference driver `fi(handle, x, step)`.
+def central_differences(fi, module_funcs=None):
+    """-> (quotients found, [(lineno, problem)]) for the finite-difference driver `fi(handle, x, step)`; module-level helpers that are
+    handed the handle, the point and the step are analysed with their own parameter names.
     A quotient is `(h(P) - h(M)) / D` with h the handle.  Required: D == 2 * step; P and M are the point moved by +step / -step in the
     SAME coordinate: either two copies of x with `P[k] = P[k] + step`, `M[k] = M[k] - step` (same index texts, nothing else stored
     into them), or `x + S` / `x - S` with one step vector S built from the step."""
     if len(fi.params) < 3:
         return 0, [(fi.node.lineno, 'numericalJacobian takes (handle, point, step)')]
-    h, x, d = fi.params[0], fi.params[1], fi.params[2]
+    n_all, probs_all = _central_differences(fi.node, fi.params[0], fi.params[1], fi.params[2])
+    # helpers of the module that receive the handle
+    for c in ast.walk(fi.node):
+        if isinstance(c, ast.Call) and isinstance(c.func, ast.Name) and module_funcs and c.func.id in module_funcs and c.func.id != fi.name:
+            hf = module_funcs[c.func.id]
+            names = [a_.arg for a_ in hf.args.args]
+            role = {}
+            for k_, a_ in enumerate(c.args):
+                if isinstance(a_, ast.Name) and a_.id in fi.params[:3] and k_ < len(names):
+                    role[a_.id] = names[k_]
+            if all(p_ in role for p_ in fi.params[:3]):
+                n_h, p_h = _central_differences(hf, role[fi.params[0]], role[fi.params[1]], role[fi.params[2]])
+                n_all += n_h
+                probs_all += p_h
+    return n_all, probs_all
+
+
+class _FnView:
+    def __init__(self, node):
+        self.node = node
+
+
+def _central_differences(fnode, h, x, d):
+    fi = _FnView(fnode)
     defs = {}
     for n in ast.walk(fi.node):
         if isinstance(n, ast.Assign) and len(n.targets) == 1 and isinstance(n.targets[0], ast.Name):
@@ -257,7 +284,7 @@ def central_differences(fi):
     for q in ast.walk(fi.node):
         if not (isinstance(q, ast.BinOp) and isinstance(q.op, ast.Div) and isinstance(q.left, ast.BinOp) and isinstance(q.left.op, ast.Sub)):
             continue
-        a, b = q.left.left, q.left.right
+        a, b = res(q.left.left), res(q.left.right)            # the two probe values may have been named
         if not (isinstance(a, ast.Call) and isinstance(b, ast.Call) and norm_text(a.func) == h and norm_text(b.func) == h and len(a.args) == 1 and len(b.args) == 1):
             continue
         n_q += 1
@@ -535,6 +562,20 @@ def check(model, rep):
             if length == 0:
                 return b
             return tm(a.TAA + (diff / length) * step)
+        """, """
+        def closeLinearGap(a, b, step):
+            diff = b - a
+            length = mr.Norm6(diff[0:6])
+            if length == 0:
+                return b
+            return tm(a.TAA[0:6] + (diff[0:6] / length) * step)
+        """, """
+        def closeLinearGap(a, b, step):
+            diff = b - a
+            length = mr.Norm6(diff[0:6])
+            if length == 0:
+                return b
+            return tm(a.TAA + (diff[0:6] / length) * step)
         """], 'closeLinearGap does not advance by exactly delta along the unit direction to the goal')
     MID = """
         def tmInterpMidpoint(a, b):
@@ -635,7 +676,7 @@ def check(model, rep):
     rep.rule('R18.9', 'numericalJacobian: every difference quotient is (h(x + step e_k) - h(x - step e_k)) / (2 step): both probes start at the '
                       'evaluation point, move by +step / -step in the same coordinate, and the difference is divided by twice the step')
     nj = F(FSR, 'numericalJacobian')
-    n_q, probs = central_differences(nj)
+    n_q, probs = central_differences(nj, {n_.name: n_ for n_ in model.module(FSR).tree.body if isinstance(n_, ast.FunctionDef)})
     rep.ob('R18.9', nj, 'difference quotients of the handle found', n_q >= 1, 'no expression (h(P) - h(M)) / D over the function handle', shape=True)
     for line, msg in probs:
         rep.ob('R18.9', nj, 'central difference', False, 'the numerical Jacobian is not the central difference of the handle: ' + msg, line=line)
